@@ -462,6 +462,17 @@ thread_local! {
     static RANS8: (Rans64Encoder<ParallelX8>, RansDecoder<ParallelX8>) = { let e = Rans64Encoder::<ParallelX8>::new(&rans_freqs()).unwrap(); let d = RansDecoder::new(&e); (e, d) };
 }
 fn rans_msgs() -> Vec<Vec<u8>> { vec![b"the quick".to_vec(), TRAIN[..90].to_vec(), b"j".to_vec(), b"aaaaaaaaaaaaaaaaaaaaaaaaaaaaaaaaaaaaaaaa".to_vec()] }
+fn aux_rans<const N: usize>() -> Vec<u64> {
+    match N {
+        1 => RANS1.with(|x| (0..256).map(|i| x.0.get_symbol(i as u8).freq as u64).collect()),
+        2 => RANS2.with(|x| (0..256).map(|i| x.0.get_symbol(i as u8).freq as u64).collect()),
+        4 => RANS4.with(|x| (0..256).map(|i| x.0.get_symbol(i as u8).freq as u64).collect()),
+        _ => RANS8.with(|x| (0..256).map(|i| x.0.get_symbol(i as u8).freq as u64).collect()),
+    }
+}
+fn aux_rans_mono<const N: usize>() -> Vec<u64> {
+    RANS_MONO.with(|x| (0..256).map(|i| if N == 1 { x.0.get_symbol(i as u8).freq } else { x.2.get_symbol(i as u8).freq } as u64).collect())
+}
 macro_rules! rans_fns { ($p:ident, $s:ident, $tl:ident) => {
     fn $p(b: &[u8], arg: u64) -> R { $tl.with(|x| x.1.decode(b, usz(arg)).map(|v| obs_bytes(&v)).map_err(es)) }
     fn $s(_r: &mut Rng) -> Vec<Seed> {
@@ -987,12 +998,12 @@ pub fn parsers() -> Vec<Parser> {
         P!("ContextualHuffman/decode_x2", 109, true, false, p_ctx_decode_x::<2>, seeds_ctx_decode_x::<2>, aux_ctx::<1>, 2),
         P!("ContextualHuffman/decode_x4", 110, true, false, p_ctx_decode_x::<4>, seeds_ctx_decode_x::<4>, aux_ctx::<1>, 2),
         P!("ContextualHuffman/decode_x8", 111, true, false, p_ctx_decode_x::<8>, seeds_ctx_decode_x::<8>, aux_ctx::<1>, 2),
-        P!("fse_decompress", 0, false, false, p_fse, seeds_fse),
+        P!("fse_decompress", 130, false, false, p_fse, seeds_fse),
         P!("remove_fse_compression", 0, false, false, p_fse_remove, seeds_fse_remove),
-        P!("Rans64Decoder/x1", 0, true, false, p_rans1, seeds_rans1),
-        P!("Rans64Decoder/x2", 0, true, false, p_rans2, seeds_rans2),
-        P!("Rans64Decoder/x4", 0, true, false, p_rans4, seeds_rans4),
-        P!("Rans64Decoder/x8", 0, true, false, p_rans8, seeds_rans8),
+        P!("Rans64Decoder/x1", 120, true, false, p_rans1, seeds_rans1, aux_rans::<1>),
+        P!("Rans64Decoder/x2", 121, true, false, p_rans2, seeds_rans2, aux_rans::<2>),
+        P!("Rans64Decoder/x4", 122, true, false, p_rans4, seeds_rans4, aux_rans::<4>),
+        P!("Rans64Decoder/x8", 123, true, false, p_rans8, seeds_rans8, aux_rans::<8>),
         P!("Dictionary::deserialize", 0, false, true, p_dict_deser, seeds_dict_deser),
         P!("DictionaryCompressor::decompress", 61, false, true, p_dict_decomp, seeds_dict_decomp),
         P!("OptimizedDictionaryCompressor::decompress", 61, false, true, p_odict_decomp, seeds_odict_decomp),
@@ -1019,9 +1030,9 @@ pub fn parsers() -> Vec<Parser> {
         P!("simd_encoding/decode_base64_from_buffer", 0, true, true, p_simd_b64_buf, seeds_b64_len),
         P!("SuffixArrayDictionary::deserialize", 0, false, false, p_sa_dict, seeds_sa_dict),
         P!("DfaCache::deserialize", 0, false, false, p_dfa_cache, seeds_dfa_cache),
-        P!("fse_decompress_with_config/fast", 0, false, false, p_fse_cfg::<0>, seeds_fse_cfg::<0>),
-        P!("fse_decompress_with_config/high", 0, false, false, p_fse_cfg::<1>, seeds_fse_cfg::<1>),
-        P!("fse_decompress_with_config/realtime", 0, false, false, p_fse_cfg::<2>, seeds_fse_cfg::<2>),
+        P!("fse_decompress_with_config/fast", 130, false, false, p_fse_cfg::<0>, seeds_fse_cfg::<0>),
+        P!("fse_decompress_with_config/high", 130, false, false, p_fse_cfg::<1>, seeds_fse_cfg::<1>),
+        P!("fse_decompress_with_config/realtime", 130, false, false, p_fse_cfg::<2>, seeds_fse_cfg::<2>),
         P!("SimdLz77CompressorX1::decompress", 0, false, false, p_slz_x1, seeds_slz_x1),
         P!("SimdLz77CompressorX2::decompress", 0, false, false, p_slz_x2, seeds_slz_x2),
         P!("SimdLz77CompressorX4::decompress", 0, false, false, p_slz_x4, seeds_slz_x4),
@@ -1031,8 +1042,8 @@ pub fn parsers() -> Vec<Parser> {
         P!("ContextualHuffmanDecoder/order0/single_symbol_model", 105, true, false, p_ctx_mono::<0>, seeds_ctx_mono::<0>, aux_ctx_mono::<0>, 4),
         P!("ContextualHuffmanDecoder/order1/single_symbol_model", 105, true, false, p_ctx_mono::<1>, seeds_ctx_mono::<1>, aux_ctx_mono::<1>, 5),
         P!("ContextualHuffmanDecoder/order2/single_symbol_model", 105, true, false, p_ctx_mono::<2>, seeds_ctx_mono::<2>, aux_ctx_mono::<2>, 6),
-        P!("Rans64Decoder/x1/single_symbol_model", 0, true, false, p_rans_mono::<1>, seeds_rans_mono::<1>),
-        P!("Rans64Decoder/x4/single_symbol_model", 0, true, false, p_rans_mono::<4>, seeds_rans_mono::<4>),
+        P!("Rans64Decoder/x1/single_symbol_model", 120, true, false, p_rans_mono::<1>, seeds_rans_mono::<1>, aux_rans_mono::<1>),
+        P!("Rans64Decoder/x4/single_symbol_model", 122, true, false, p_rans_mono::<4>, seeds_rans_mono::<4>, aux_rans_mono::<4>),
         P!("Compressor/huffman/decompress/single_symbol_model", 0, false, false, p_comp_mono::<3>, seeds_comp_mono::<3>),
         P!("Compressor/rans/decompress/single_symbol_model", 0, false, false, p_comp_mono::<4>, seeds_comp_mono::<4>),
         P!("Compressor/dictionary/decompress/single_symbol_model", 0, false, false, p_comp_mono::<5>, seeds_comp_mono::<5>),
